@@ -235,9 +235,11 @@ def check_apply(P, R):
                          'while finishing this response land on the shared error object and show up in later responses',
                          why='the errors_map responses are shared by all requests (and all applications)')
     calls = [c for c in walk_shallow(f.node) if isinstance(c, ast.Call) and isinstance(c.func, ast.Attribute)]
-    clear = [c for c in calls if c.func.attr == 'clear' and dotted(c.func.value) == f'{rp}._headers']
-    upd = [c for c in calls if c.func.attr == 'update' and dotted(c.func.value) == f'{rp}._headers' and c.args
-           and src(c.args[0]) == 'self._headers']
+    def _recv(c_):
+        return T.xsrc(f, c_.func.value, g.node_of_stmt(c_)[0], keep=(rp,))
+    clear = [c for c in calls if c.func.attr == 'clear' and _recv(c) == f'{rp}._headers']
+    upd = [c for c in calls if c.func.attr == 'update' and _recv(c) == f'{rp}._headers' and c.args
+           and T.xsrc(f, c.args[0], g.node_of_stmt(c)[0]) == 'self._headers']
     ok = bool(clear) and bool(upd)
     if ok:
         ok = g.must_pass(g.entry, g.node_of_stmt(upd[0])[0], [g.node_of_stmt(clear[0])[0]])
